@@ -5,6 +5,7 @@ import (
 	"encoding/binary"
 	"fmt"
 	"math"
+	"math/big"
 	"strings"
 
 	"cedarverif/harness/internal/orc"
@@ -23,10 +24,26 @@ type tval struct {
 	f    float64
 }
 
+// baseKind: the value type behind an entry point (Code* and the float32 wrappers travel as the
+// same wire values as Put*/Get*)
+func baseKind(k string) string {
+	switch k {
+	case "code-int64", "code-int32", "code-int":
+		return "int"
+	case "code-char":
+		return "char"
+	case "code-dbl", "flt", "code-flt":
+		return "dbl"
+	case "code-str":
+		return "str"
+	}
+	return k
+}
+
 // specEnc is the reference encoding written from protocol/CEDAR_PROTOCOL.md (not from message.go).
 func specEnc(v tval, enc bool) []byte {
 	be := func(x uint64) []byte { b := make([]byte, 8); binary.BigEndian.PutUint64(b, x); return b }
-	switch v.kind {
+	switch baseKind(v.kind) {
 	case "int", "int32", "uint32":
 		return be(uint64(v.i))
 	case "char":
@@ -130,6 +147,38 @@ func (cw *codecWorld) put(v tval) error {
 	case "bytes":
 		err = cw.enM.PutBytes(bg, v.s)
 		op = "put bytes " + runPayload(v.s)
+	// the Code* entry points (direction = encode on this Message) and the float32 wrappers
+	case "code-int64":
+		x := v.i
+		err = cw.enM.CodeInt64(bg, &x)
+		op = fmt.Sprintf("put int %d", v.i)
+	case "code-int32":
+		x := int32(v.i)
+		err = cw.enM.CodeInt32(bg, &x)
+		op = fmt.Sprintf("put int %d", v.i)
+	case "code-int":
+		x := int(v.i)
+		err = cw.enM.CodeInt(bg, &x)
+		op = fmt.Sprintf("put int %d", v.i)
+	case "code-char":
+		x := byte(v.i)
+		err = cw.enM.CodeChar(bg, &x)
+		op = fmt.Sprintf("put char %d", v.i)
+	case "code-dbl":
+		x := v.f
+		err = cw.enM.CodeDouble(bg, &x)
+		op = fmt.Sprintf("put dbl %d", math.Float64bits(v.f))
+	case "flt":
+		err = cw.enM.PutFloat(bg, float32(v.f))
+		op = fmt.Sprintf("put dbl %d", math.Float64bits(v.f))
+	case "code-flt":
+		x := float32(v.f)
+		err = cw.enM.CodeFloat(bg, &x)
+		op = fmt.Sprintf("put dbl %d", math.Float64bits(v.f))
+	case "code-str":
+		x := string(v.s)
+		err = cw.enM.CodeString(bg, &x)
+		op = "put str " + orc.Payload(v.s)
 	}
 	if err != nil {
 		cw.w.a.c.TakeOut()
@@ -235,6 +284,38 @@ func (cw *codecWorld) get(kind string, n int) (tval, error) {
 		var x []byte
 		x, err = cw.deM.GetRemainingBytes(bg)
 		v.s, r = x, orc.ShowBytes(x)
+	case "code-int64":
+		var x int64
+		err = cw.deM.CodeInt64(bg, &x)
+		v.i, r, op = x, fmt.Sprint(x), "get int"
+	case "code-int32":
+		var x int32
+		err = cw.deM.CodeInt32(bg, &x)
+		v.i, r, op = int64(x), fmt.Sprint(x), "get int32"
+	case "code-int":
+		var x int
+		err = cw.deM.CodeInt(bg, &x)
+		v.i, r, op = int64(x), fmt.Sprint(x), "get int"
+	case "code-char":
+		var x byte
+		err = cw.deM.CodeChar(bg, &x)
+		v.i, r, op = int64(x), fmt.Sprint(x), "get char"
+	case "code-dbl":
+		var x float64
+		err = cw.deM.CodeDouble(bg, &x)
+		v.f, r, op = x, fmt.Sprint(math.Float64bits(x)), "get dbl"
+	case "flt":
+		var x float32
+		x, err = cw.deM.GetFloat(bg)
+		v.f, r, op = float64(x), fmt.Sprint(math.Float64bits(float64(x))), "get flt"
+	case "code-flt":
+		var x float32
+		err = cw.deM.CodeFloat(bg, &x)
+		v.f, r, op = float64(x), fmt.Sprint(math.Float64bits(float64(x))), "get flt"
+	case "code-str":
+		var x string
+		err = cw.deM.CodeString(bg, &x)
+		v.s, r, op = []byte(x), orc.ShowBytes([]byte(x)), "get str"
 	}
 	v.kind = kind
 	if err != nil {
@@ -254,7 +335,42 @@ func randUTF8(c *Ctx, n int) []byte {
 	return b.Bytes()
 }
 
+// randVal: a value and the entry point that sends it (a quarter go through Code* / PutFloat)
 func randVal(c *Ctx) tval {
+	v := randVal0(c)
+	if c.Rng.Intn(4) != 0 {
+		return v
+	}
+	switch v.kind {
+	case "int":
+		v.kind = []string{"code-int64", "code-int"}[c.Rng.Intn(2)]
+	case "int32":
+		v.kind = "code-int32"
+	case "char":
+		v.kind = "code-char"
+	case "str":
+		v.kind = "code-str"
+	case "dbl":
+		switch c.Rng.Intn(3) {
+		case 0:
+			v.kind = "code-dbl"
+		default:
+			// a float32 value (finite): PutFloat / CodeFloat
+			f32 := float32(v.f)
+			if math.IsInf(float64(f32), 0) {
+				f32 = math.MaxFloat32
+				if v.f < 0 {
+					f32 = -f32
+				}
+			}
+			v.f = float64(f32)
+			v.kind = []string{"flt", "code-flt"}[c.Rng.Intn(2)]
+		}
+	}
+	return v
+}
+
+func randVal0(c *Ctx) tval {
 	switch c.Rng.Intn(10) {
 	case 0, 1:
 		bnd := []int64{0, 1, -1, math.MaxInt64, math.MinInt64, math.MaxInt32, math.MinInt32, 1 << 32, -(1 << 32), 255, 256}
@@ -349,6 +465,31 @@ func runPayload(b []byte) string {
 	return strings.Join(parts, "+")
 }
 
+// dblNear checks the 16 wire bytes of a finite non-zero double with exact integers.
+func dblNear(f float64, w []byte) string {
+	frac, exp := math.Frexp(f)
+	m := new(big.Int)
+	big.NewFloat(math.Ldexp(frac, 53)).Int(m) // exact: the fraction has 53 bits
+	fi := int64(binary.BigEndian.Uint64(w[:8]))
+	ex := int64(binary.BigEndian.Uint64(w[8:16]))
+	if ex != int64(exp) {
+		return fmt.Sprintf("double %g: exponent on the wire %d, binary exponent %d", f, ex, exp)
+	}
+	if (fi < 0) != (f < 0) && fi != 0 {
+		return fmt.Sprintf("double %g: fraction on the wire %d has the wrong sign", f, fi)
+	}
+	if fi > math.MaxInt32 || fi < math.MinInt32 {
+		return fmt.Sprintf("double %g: fraction on the wire %d does not fit 32 bits", f, fi)
+	}
+	p53 := new(big.Int).Lsh(big.NewInt(1), 53)
+	d := new(big.Int).Mul(big.NewInt(fi), p53)
+	d.Sub(d, new(big.Int).Mul(m, big.NewInt(2147483647)))
+	if d.Abs(d).Cmp(p53) > 0 {
+		return fmt.Sprintf("double %g: fraction on the wire %d is not trunc(m·(2^31−1)/2^53) ± 1 for m = %s", f, fi, m.String())
+	}
+	return ""
+}
+
 func getKind(k string) string {
 	if k == "strbytes" {
 		return "str"
@@ -356,9 +497,65 @@ func getKind(k string) string {
 	return k
 }
 
+// getVia: which decoder entry point reads a value sent as kind k (Get* or Code*, float32 or float64)
+func getVia(c *Ctx, k string) string {
+	switch c.Rng.Intn(3) {
+	case 0:
+		switch baseKind(getKind(k)) {
+		case "int":
+			if k == "int32" || k == "code-int32" {
+				return "code-int32"
+			}
+			if k == "uint32" {
+				return "uint32"
+			}
+			return []string{"code-int64", "code-int"}[c.Rng.Intn(2)]
+		case "char":
+			return "code-char"
+		case "str":
+			return "code-str"
+		case "dbl":
+			if k == "flt" || k == "code-flt" {
+				return []string{"flt", "code-flt"}[c.Rng.Intn(2)]
+			}
+			return "code-dbl"
+		}
+	case 1:
+		switch k {
+		case "code-int64", "code-int":
+			return "int"
+		case "code-int32":
+			return "int32"
+		case "code-char":
+			return "char"
+		case "code-str":
+			return "str"
+		case "code-dbl":
+			return "dbl"
+		}
+	}
+	return getKind(k)
+}
+
 // sameVal is the C14 property oracle for one value.
 func sameVal(put, got tval) string {
-	switch put.kind {
+	if put.kind == "flt" || put.kind == "code-flt" || got.kind == "flt" || got.kind == "code-flt" {
+		if put.kind != "flt" && put.kind != "code-flt" {
+			return "" // (a float64 read back as float32: only the float32 sends are judged)
+		}
+		// a float32 value: 31-bit fraction on the wire, then rounding to float32 on receipt
+		if put.f == 0 {
+			if got.f != 0 {
+				return fmt.Sprintf("float 0 decoded as %g", got.f)
+			}
+			return ""
+		}
+		if rel := math.Abs(got.f-put.f) / math.Abs(put.f); rel > math.Ldexp(1, -22) && math.Abs(got.f-put.f) > math.Ldexp(1, -149)*2 {
+			return fmt.Sprintf("float %g decoded as %g (rel err %g)", put.f, got.f, rel)
+		}
+		return ""
+	}
+	switch baseKind(put.kind) {
 	case "int", "int32", "uint32", "char":
 		if put.i != got.i {
 			return fmt.Sprintf("integer %d decoded as %d", put.i, got.i)
@@ -434,16 +631,52 @@ func runCodec(c *Ctx) error {
 				cw.recut(cuts)
 				cutInside = true
 			}
-			for _, v := range vals {
-				g, err := cw.get(getKind(v.kind), len(v.s))
+			// the fraction of every double on the wire, against exact integer arithmetic (independent
+			// of float multiplication): |fracInt · 2^53 − m · FracConst| ≤ 2^53 and the sign of m — the
+			// hypothesis `NearN` of the precision theorem, measured on the implementation
+			{
+				off := 0
+				for _, v := range vals {
+					e := specEnc(v, enc)
+					if baseKind(v.kind) == "dbl" && v.f != 0 && off+16 <= len(all) {
+						if bad := dblNear(v.f, all[off:off+16]); bad != "" {
+							c.Violate(Violation{Property: prop, Key: "C14:double-fraction", What: bad, Ops: cw.ops, Expected: "fraction = trunc(m·(2^31−1)/2^53) ± 1 with the sign of the value, exponent = the binary exponent", Observed: orc.ShowBytes(all[off : off+16])})
+						}
+					}
+					off += len(e)
+				}
+			}
+			// sometimes the reader stops after k values and takes the rest of the message raw
+			stopAt := len(vals)
+			if c.Rng.Intn(5) == 0 {
+				stopAt = c.Rng.Intn(len(vals) + 1)
+			}
+			for vi, v := range vals {
+				if vi == stopAt {
+					break
+				}
+				g, err := cw.get(getVia(c, v.kind), len(v.s))
 				if err != nil {
 					c.Violate(Violation{Property: prop, Key: "C14:decode-error:" + v.kind, What: "decoding what was encoded failed", Ops: cw.ops, Expected: "value", Observed: err.Error()})
 					break
 				}
 				if bad := sameVal(v, g); bad != "" {
-					c.Violate(Violation{Property: prop, Key: "C14:value:" + v.kind, What: bad, Ops: cw.ops, Expected: "same value", Observed: bad})
+					c.Violate(Violation{Property: prop, Key: "C14:value:" + v.kind + "->" + g.kind, What: bad, Ops: cw.ops, Expected: "same value", Observed: bad})
 					break
 				}
+			}
+			if stopAt < len(vals) {
+				var wantRest []byte
+				for _, v := range vals[stopAt:] {
+					wantRest = append(wantRest, specEnc(v, enc)...)
+				}
+				g, err := cw.get("rest", 0)
+				if err != nil {
+					c.Violate(Violation{Property: prop, Key: "C14:decode-error:rest", What: "GetRemainingBytes failed on an unfinished message", Ops: cw.ops, Expected: "the remaining bytes", Observed: err.Error()})
+				} else if !bytes.Equal(g.s, wantRest) {
+					c.Violate(Violation{Property: prop, Key: "C14:value:rest", What: "GetRemainingBytes did not return exactly the encodings of the values not yet read", Ops: cw.ops, Expected: orc.ShowBytes(wantRest), Observed: orc.ShowBytes(g.s)})
+				}
+				c.Count("kind:rest")
 			}
 			c.Distinct(strings.Join(cw.ops, "\n"), nv >= 2 || cutInside)
 			c.Count("mode:" + b01(enc))
@@ -478,7 +711,7 @@ func runCodec(c *Ctx) error {
 				_ = cw.finish()
 				cw.recut([]int{cut})
 				for _, v := range vals {
-					g, err := cw.get(getKind(v.kind), len(v.s))
+					g, err := cw.get(getVia(c, v.kind), len(v.s))
 					if err != nil {
 						c.Violate(Violation{Property: prop, Key: "C14:decode-error-cut:" + v.kind, What: "decoding failed after re-cutting", Ops: cw.ops, Expected: "value", Observed: err.Error()})
 						break
@@ -507,7 +740,7 @@ func runCodec(c *Ctx) error {
 				}
 				// PutStringBytes around the threshold of its large branch (len+1 [+8] > frame payload limit) and
 				// well above it; GetRemainingBytes on a value spanning several frames
-				if kind == "strbytes" && !c.Thorough() && sz != MiB-40 && sz != MiB-1 && sz != MiB && sz != 2*MiB+5 {
+				if kind == "strbytes" && !c.Thorough() && sz != MiB-40 && sz != MiB-1 && sz != MiB && sz != 2*MiB+5 && sz != MiB-9 && sz != MiB+1 {
 					continue
 				}
 				if kind == "bytes-rest" && !c.Thorough() && sz != MiB+1 && sz != 2*MiB+5 {
@@ -531,6 +764,16 @@ func runCodec(c *Ctx) error {
 					c.Violate(Violation{Property: "C01", Key: "C01:typed-finish-rejected-large:" + kind + ":" + b01(enc == 1), What: "FinishMessage failed after a large value",
 						Ops: cw.ops, Expected: "ok", Observed: err.Error()})
 				} else {
+					if kind == "strbytes" {
+						var all []byte
+						for _, p := range cw.wire {
+							all = append(all, p...)
+						}
+						if want := append(specEnc(pre, enc == 1), specEnc(v, enc == 1)...); !bytes.Equal(all, want) {
+							c.Violate(Violation{Property: "C14", Key: "C14:layout:large-strbytes", What: fmt.Sprintf("PutStringBytes of %d bytes: emitted bytes differ from the reference layout (%d bytes on the wire, %d expected)", sz, len(all), len(want)), Ops: cw.ops,
+								Expected: orc.ShowBytes(want), Observed: orc.ShowBytes(all)})
+						}
+					}
 					g0, err := cw.get("int", 0)
 					if err == nil {
 						rk := getKind(kind)
